@@ -666,7 +666,13 @@ def draw_op(ch, x, tag, names=None, weights=None):
         cands = [n for n in cands for _ in range(weights.get(n, 1))]
     name = ch.choice(cands, tag + ".op")
     op = OPS[name]
-    return op, op.draw(ch, x, tag)
+    args = op.draw(ch, x, tag)
+    shown = {k: v for k, v in args.items() if k != "y"} if isinstance(
+        args, dict) else args
+    ch.annotate(f"{tag}: {name} {shown}"
+                + (" + generated partner" if isinstance(args, dict)
+                   and "y" in args else ""))
+    return op, args
 
 
 def arrays_in(result):
